@@ -41,6 +41,8 @@ class Profile:
         self.plan_persist = False    # apply the fault plan to every incarnation of the daemons (call indices are per process)
         self.min_rcpts = None        # lower bound of the recipient count of a message (None: 1, rarely 0)
         self.rcpt_doms = None        # recipient domains to draw from (None: local, remote, mixed case, virtual)
+        self.long_lengths = None     # address lengths used for "long" recipients (default: a spread from 60 to 900)
+        self.slow_spawner = 0.0      # probability that one channel's spawner reads its commands slowly through a one-page pipe
         self.report_burst = 1        # answer up to this many outstanding deliveries at one quiescent point
         self.p_overlong_forge = 0.0  # probability that a failure text is longer than the daemon's report cap and carries, around the
                                      # cap, bytes that read like a report for another delivery in flight on the channel
@@ -111,6 +113,11 @@ class History:
         # how many outstanding deliveries are answered at one quiescent point: several reports (of both channels, of one
         # message) then reach the daemon in the same select round (seed c04-s7)
         self.burst = p.report_burst if p.report_burst > 1 else rng.choice([1, 1, 2, 3, 5])
+        self.slow = None
+        if p.slow_spawner and rng.random() < p.slow_spawner:
+            self.slow = rng.choice("lr")
+            self.sim.small_cmd_pipe = True
+            self.sim.read_budget[self.slow] = 0
         if p.gate_m:
             self.sim.gate_progs = "qmail-send,qmail-clean"
         if p.qq_fail:
@@ -149,8 +156,8 @@ class History:
         rc = [b"r%d.%d@%s" % (m, k, rng.choice(doms)) for k in range(n)]
         if p.p_long_addr and rng.random() < p.p_long_addr:
             for k in range(len(rc)):
-                if rng.random() < 0.6:
-                    L = rng.choice([60, 100, 110, 127, 128, 129, 250, 500, 900])
+                if rng.random() < (0.6 if not p.long_lengths else 0.95):
+                    L = rng.choice(p.long_lengths or [60, 100, 110, 127, 128, 129, 250, 500, 900])
                     loc, dom = rc[k].split(b"@")
                     rc[k] = loc + b"-" + b"x" * max(0, L - len(rc[k]) - 1) + b"@" + dom
             if kind in ("user", "user-remote") and rng.random() < 0.5:
@@ -295,6 +302,21 @@ class History:
                     self.res.inconclusive.append("history %s did not finish within %d quiescent points" % (self.label, p.max_quiescent))
                     break
                 T = ent.get("T", 0)
+                if self.slow and getattr(self, "just_fed", False) and sim.outstanding and not self.term_pending:
+                    # right after a small read (the daemon's write was partial if it had more buffered): a report frees a slot
+                    # and the daemon starts another delivery while the rest of its buffer is still unwritten
+                    self.just_fed = False
+                    ks = [k for k in sorted(sim.outstanding) if k[0] == self.slow] or sorted(sim.outstanding)
+                    cmd = sim.outstanding[rng.choice(ks)]
+                    sim.report(cmd, self.choose_report(cmd))
+                    continue
+                if self.slow and sim.unread_commands(self.slow) > 0 and (self.term_pending or not sim.outstanding or rng.random() < 0.6):
+                    # the slow spawner gets round to reading some of what the daemon has written to it
+                    n = rng.choice([300, 300, 500, 700, 1000, 1000, 4096, 4096, 9000, 100000])
+                    sim.feed_spawner(self.slow, n)
+                    self.just_fed = n <= 1000
+                    self.res.counters.inc("slow_spawner_reads")
+                    continue
                 if self.term_pending:
                     # daemon is draining: answer what is outstanding
                     if sim.outstanding:
